@@ -24,7 +24,7 @@ RULE = (
 )
 FAULT_KEYS = ["shuffle", "long_locus", "policy_first", "policy_last", "policy_adjacent", "policy_tape", "adversarial_choice", "row_permute"]
 PROBE_KEYS = ["sweep_over_256", "impossible_breaks_refused", "saturated_posterior_at_threshold_1", "sweeps_checked", "sweep_over_127", "partitions_checked", "max_breaks", "fixing_checked", "all_fixed", "some_fixed", "none_fixed",
-              "threshold_near_skip", "fixed_multiallelic", "cli_fixing_checked", "cli_some_fixed", "cli_all_fixed", "cli_none_fixed"]
+              "threshold_near_skip", "fixed_multiallelic", "fix_after_earlier_fit", "cli_fixing_checked", "cli_some_fixed", "cli_all_fixed", "cli_none_fixed"]
 OPTIONAL_PROBES = {"quick": ("threshold_near_skip",), "thorough": ()}
 COMPONENTS = {
     "real": ["mchap.assemble.mutation.compound_step", "mchap.assemble.structural.random_breaks", "mchap.assemble.mcmc.DenovoMCMC.fit/_mcmc/_homozygosity_probabilities/_denovo_assembler",
@@ -84,6 +84,8 @@ def gen_config(rng, tier, index=0):
         "steps": rng.randint(1, 4),
         "chains": rng.choice([1, 2]),
         "temperatures": rng.choice([[1.0], [0.2, 1.0]]),
+        # history: the same model object was fitted before, on other reads of the same locus (another sample)
+        "refit": rng.random() < 0.3,
     }
 
 
@@ -303,6 +305,13 @@ def run_fix(ctx):
         seams.set(amcmc, "_denovo_assembler", w_denovo)
         model = amcmc.DenovoMCMC(ploidy=pl, n_alleles=list(n_alleles), inbreeding=F, steps=cfg["steps"], chains=cfg["chains"],
                                  fix_homozygous=thr, temperatures=tuple(cfg["temperatures"]), random_seed=3, llk_cache_threshold=-1)
+        if cfg.get("refit"):
+            other = dict(cfg, data_seed=cfg["data_seed"] ^ 0x5A5A5A, hom_cols=[not h for h in cfg["hom_cols"]], depth=max(cfg["depth"], 12))
+            reads_a, counts_a = gen_fix_reads(other)
+            model.fit(reads_a, read_counts=counts_a)
+            ctx.counters.inc("fix_after_earlier_fit")
+            seen["calls"] = []
+            del sim.history[:]
         trace = model.fit(reads, read_counts=counts, initial=g0)
     ctx.counters.inc("fixing_checked")
     ctx.counters.inc("all_fixed" if not het else ("some_fixed" if fixed_allele else "none_fixed"))
@@ -444,6 +453,8 @@ def shrink_candidates(cfg, violation):
         if b > 0:
             mod(breaks=b - 1)
     else:
+        if cfg.get("refit"):
+            mod(refit=False)
         if cfg["chains"] > 1:
             mod(chains=1)
         if cfg["steps"] > 1:
